@@ -26,7 +26,8 @@ use xml_dom::{
     AsNode, Attr, CharacterData, Document, DocumentType, Entity, Node, Notation, PrettyPrint, XmlNode,
 };
 
-pub const STACK_BYTES: usize = 8 * 1024 * 1024;
+// the default stack of a thread made by std::thread::spawn (what a caller of the library gets unless it asks for more)
+pub const STACK_BYTES: usize = 2 * 1024 * 1024;
 const TEXT_INLINE_MAX: usize = 4000;
 
 pub fn main(sub: &str, args: &[String]) -> i32 {
